@@ -369,7 +369,11 @@ ares_status_t ares_dns_name_write(ares_buf_t *buf, ares_llist_t **list,
   }
 
   /* NOTE: due to possible escaping, name_copy buffer is > 256 to allow for
-   *       this */
+   *       this.  Never write a silently truncated name. */
+  if (ares_strlen(name) >= sizeof(name_copy)) {
+    status = ARES_EBADNAME;
+    goto done;
+  }
   name_len      = ares_strcpy(name_copy, name, sizeof(name_copy));
   orig_name_len = name_len;
 
